@@ -42,6 +42,13 @@ TEXTS = [
     "a = word\nb = other_word\n",
     "t = titan*/\n",
     "t = /*titan\n",
+    # texts that are wrong at their very first token (whatever was read before must not show in the error)
+    "(1, 2)\n",
+    "= 5\n",
+    # dash continuation (joined before parsing by the permissive parser), then errors late in a text
+    "a = abc-\n   def\nb = \"x-\n  y\"\nc = 2\nEND\n",
+    "x = 1\ny = 2\nlong_name = (1, 2, 3)\nz = 3 <m\nw = 4\n",
+    "# hash comment\na = 1 # trailing\nb = 2\n",
 ]
 
 DEC_CALLS = [["simple", "16#-7F#"], ["simple", "-16#7F#"], ["simple", "3#12#"], ["simple", "23:59:60"],
